@@ -96,7 +96,32 @@ def blocks(tier, seed):
             out.append({"part": "length", "grid": gk, "method": method})
     out.append({"part": "long"})
     out.append({"part": "solver"})
+    # two differently configured trackers fed alternately in one (fresh) process: what one analysis does must not change the other
+    for a in range(len(TWO_SETTINGS)):
+        out.append({"part": "two-trackers", "a": a})
+    # one length-scale tracker fed frames that live on different grids of equal shape
+    for method in ("structure_factor_mean", "structure_factor_maximum"):
+        out.append({"part": "length-grids", "method": method})
     return out
+
+
+TWO_SETTINGS = [
+    {"threshold": 0.5, "minimal_radius": 0, "refine": True, "refine_args": None, "perturbation_modes": 0},
+    {"threshold": 0.5, "minimal_radius": 0, "refine": True, "refine_args": {"least_squares_params": {"max_nfev": 3}}, "perturbation_modes": 0},
+    {"threshold": "auto", "minimal_radius": 0, "refine": True, "refine_args": {"tolerance": 1e-3}, "perturbation_modes": 0},
+    {"threshold": "auto", "minimal_radius": 0, "refine": True, "refine_args": {"vmin": None, "vmax": None, "adjust_values": True}, "perturbation_modes": 0},
+    {"threshold": 0.5, "minimal_radius": 1.5, "refine": False, "refine_args": None, "perturbation_modes": 2},
+]
+GRID_FIELDS = {"tall": ([8, 8], [1.0, 2.0]), "wide": ([8, 8], [2.0, 1.0]), "small": ([8, 8], [1.5, 1.5]), "other": ([6, 10], [1.0, 1.0])}
+
+
+def grid_field(name):
+    from pde import CartesianGrid, ScalarField
+
+    shape, dx = GRID_FIELDS[name]
+    grid = CartesianGrid([(0, n * d) for n, d in zip(shape, dx)], shape, periodic=True)
+    x, y = np.meshgrid(*[(np.arange(n) + 0.5) / n for n in shape], indexing="ij")
+    return ScalarField(grid, np.sin(2 * np.pi * 2 * x) + 0.5 * np.cos(2 * np.pi * y) + 0.1 * ((np.arange(x.size).reshape(x.shape) * 7) % 5))
 
 
 def sequences(maxlen, alphabet):
@@ -130,6 +155,16 @@ def cases(block):
         for seq in sequences(3, FIELDS):
             for tv in ((("floats" if len(seq) % 2 else "unit"), "repeated") if len(seq) >= 3 else (("floats" if len(seq) % 2 else "unit"),)):
                 yield {"part": p, "grid": block["grid"], "method": block["method"], "seq": list(seq), "times": tv, "source": "index" if len(seq) == 2 else "none"}
+    elif p == "two-trackers":
+        for b in range(len(TWO_SETTINGS)):
+            if b != block["a"]:
+                for seq in itertools.product(["one", "two", "moved", "scaled"], repeat=2):
+                    yield {"part": p, "a": block["a"], "b": b, "seq": list(seq)}
+    elif p == "length-grids":
+        for n in (1, 2, 3, 4):
+            for seq in itertools.product(list(GRID_FIELDS), repeat=n):
+                if n < 4 or (seq[0] == seq[3] and len(set(seq)) >= 3):
+                    yield {"part": p, "method": block["method"], "seq": list(seq)}
     elif p == "long":
         for gk in ("2d", "1d"):
             yield {"part": "long", "grid": gk, "n": 12}
@@ -183,7 +218,84 @@ def run_case(case, ctx):
         return run_length(case, ctx)
     if p == "long":
         return run_long(case, ctx)
+    if p == "two-trackers":
+        return run_two(case, ctx)
+    if p == "length-grids":
+        return run_length_grids(case, ctx)
     return run_solver(case, ctx)
+
+
+def _framewise(fields, st):
+    import copy
+
+    from droplets import locate_droplets
+
+    return [ekey(locate_droplets(f, threshold=st["threshold"], minimal_radius=st["minimal_radius"], modes=st["perturbation_modes"], refine=st["refine"],
+                                 refine_args=copy.deepcopy(st["refine_args"]) if st["refine_args"] is not None else None)) for f in fields]
+
+
+def run_two(case, ctx):
+    import copy
+
+    from droplets import DropletTracker
+    from mcx import core
+
+    sa, sb = TWO_SETTINGS[case["a"]], TWO_SETTINGS[case["b"]]
+    tags = {"part": "two-trackers", "a": case["a"], "b": case["b"]}
+
+    def refs():
+        fields = [make_field("2d", n) for n in case["seq"]]
+        return _framewise(fields, sa)
+
+    def both():
+        fields = [make_field("2d", n) for n in case["seq"]]
+        trs = []
+        for st in (sa, sb):
+            trs.append(DropletTracker(1, threshold=st["threshold"], minimal_radius=st["minimal_radius"], refine=st["refine"],
+                                      refine_args=copy.deepcopy(st["refine_args"]) if st["refine_args"] is not None else None, perturbation_modes=st["perturbation_modes"]))
+            trs[-1].initialize(fields[0])
+        for i, f in enumerate(fields):
+            for tr_ in trs:  # alternately, as two trackers attached to one simulation are
+                tr_.handle(f, float(i))
+        return [ekey(e) for e in trs[0].data.emulsions]
+
+    try:
+        want = core.in_fork(refs)  # tracker A's settings alone, in a process that never saw B's
+        got = core.in_fork(both)
+        ctx.op(3 * len(case["seq"]))
+    except Exception as e:  # noqa
+        ctx.check("C14.no-raise", False, {"exc": repr(e)[-400:]}, tags)
+        return
+    ctx.check("C14.equals-framewise", got == want, {"what": "tracker A differs when tracker B runs alongside", "frames_differing": [i for i, (x, y) in enumerate(zip(got, want)) if x != y]}, tags)
+    ctx.count("interleaved-tracker-runs")
+
+
+def run_length_grids(case, ctx):
+    from droplets import LengthScaleTracker, get_length_scale
+    from mcx import core
+
+    method = case["method"]
+    tags = {"part": "length-grids", "method": method}
+
+    def one(name):
+        try:
+            return float(get_length_scale(grid_field(name), method=method))
+        except Exception:  # noqa
+            return math.nan
+
+    def tracked():
+        tr_ = LengthScaleTracker(1, method=method)
+        tr_.initialize(grid_field(case["seq"][0]))
+        for i, name in enumerate(case["seq"]):
+            tr_.handle(grid_field(name), float(i))
+        return [float(v) for v in tr_.length_scales]
+
+    want = [core.in_fork(lambda n=name: one(n)) for name in case["seq"]]  # every frame alone in a fresh process
+    got = core.in_fork(tracked)
+    ctx.op(2 * len(case["seq"]))
+    same = len(got) == len(want) and all((math.isnan(a) and math.isnan(b)) or a == b for a, b in zip(got, want))
+    ctx.check("C14.ls-value", same, {"recorded": got, "frame_alone": want, "grids": case["seq"]}, tags)
+    ctx.count("length-frames-on-different-grids")
 
 
 def offline(fields, times, st):
@@ -385,4 +497,4 @@ def run_solver(case, ctx):
 
 def expected_positive(tier):
     return ["C14.equals-offline", "C14.equals-framewise", "C14.file", "C14.ls-value", "C14.ls-file", "C14.ls-no-raise", "C14.times", "C14.prefilled-kept", "frames-with-droplets",
-            "mixture-of-empty-and-non-empty-frames", "length-analysis-raises", "finite-length-scales", "sequences-with->=11-frames", "real-solver-runs"]
+            "mixture-of-empty-and-non-empty-frames", "length-analysis-raises", "finite-length-scales", "sequences-with->=11-frames", "real-solver-runs", "interleaved-tracker-runs", "length-frames-on-different-grids"]
